@@ -205,6 +205,7 @@ func cutClass(st *wire.Stream, k int) string {
 }
 
 type h1Job struct {
+	decomp  bool // the client decodes every coding (AutoDecompression, own Accept-Encoding)
 	st      *wire.Stream
 	offsets []int
 	out     []h1Seen // manual mode, one per offset
@@ -242,6 +243,30 @@ func runH1(r *hk.Run, rng *hk.Rand) error {
 		budget -= len(j.offsets)
 		jobs = append(jobs, j)
 	}
+	// directed: interim (1xx) responses in front of the final one x framing; content-codings
+	// decoded by internal/compress (AutoDecompression) x {Content-Length, chunked}: every offset
+	type dcombo struct {
+		fr        wire.Framing
+		coding    string
+		interim   int
+		interimCL bool
+		decomp    bool
+	}
+	dcombos := []dcombo{{wire.FrCL, "", 1, false, false}, {wire.FrChunked, "", 2, true, false}, {wire.FrClose, "", 1, true, false},
+		{wire.FrCL, "gzip", 3, true, false}, {wire.FrChunked, "", 5, false, false},
+		{wire.FrChunked, "gzip", 0, false, true}, {wire.FrCL, "deflate", 0, false, true}, {wire.FrChunked, "deflate", 1, true, true},
+		{wire.FrCL, "br", 0, false, true}, {wire.FrChunked, "br", 0, false, true}, {wire.FrCL, "zstd", 1, false, true}, {wire.FrChunked, "zstd", 0, false, true}}
+	for rep := 0; rep < r.Scale(1, 12); rep++ {
+		for _, dc := range dcombos {
+			st := wire.GenStream(rng, wire.GenOpts{Framing: dc.fr, Coding: dc.coding, Interim: dc.interim, InterimCL: dc.interimCL,
+				BodyLen: hk.Pick(rng, []int{5, 64, 300}), NHeaders: rng.Range(0, 2), NTrailers: rng.Intn(2)})
+			j := &h1Job{st: st, decomp: dc.decomp}
+			for k := 0; k <= len(st.Wire); k++ {
+				j.offsets = append(j.offsets, k)
+			}
+			jobs = append(jobs, j)
+		}
+	}
 	nbig := r.Scale(6, 60)
 	for i := 0; i < nbig; i++ {
 		cb := combos[i%len(combos)]
@@ -276,6 +301,11 @@ func runH1(r *hk.Run, rng *hk.Rand) error {
 			defer func() { <-sem }()
 			c := newH1Client(srv.Addr())
 			ca := newH1Client(srv.Addr())
+			if j.decomp {
+				for _, x := range []*req.Client{c, ca} {
+					x.EnableAutoDecompress().SetCommonHeader("Accept-Encoding", "gzip, deflate, br, zstd")
+				}
+			}
 			for oi, k := range j.offsets {
 				j.out = append(j.out, exchange(c, srv, j.st, j.st.Wire, k, false, false))
 				if (oi+ji)%3 == 0 {
@@ -295,6 +325,16 @@ func runH1(r *hk.Run, rng *hk.Rand) error {
 		if st.Gzip {
 			kind += "+gzip"
 		}
+		if st.Coding != "" {
+			kind += "+" + st.Coding
+		}
+		if j.decomp {
+			kind += "/autodecompress"
+		}
+		if st.Interim > 0 {
+			kind += fmt.Sprintf("/interim-%d", st.Interim)
+		}
+		coded := st.Gzip || st.Coding != ""
 		var coqObs []string
 		flush := func(last int) {
 			if len(coqObs) == 0 {
@@ -306,7 +346,7 @@ func runH1(r *hk.Run, rng *hk.Rand) error {
 				return
 			}
 			ctor := fmt.Sprintf("H1Cuts %s %s %s %s", hk.CoqN(uint64(len(st.Hdr))), coqFraming(st), coqBig(st.Wire), coqBig(st.Body))
-			if st.Gzip {
+			if coded {
 				ctor = fmt.Sprintf("H1GzCuts %s %s %s %s %s", hk.CoqN(uint64(len(st.Hdr))), coqFraming(st), coqBig(st.Wire), coqBig(st.Payload), hk.CoqN(uint64(len(st.Body))))
 			}
 			r.Add(hk.Case{Coq: ctor + " " + hk.CoqList(coqObs),
@@ -332,7 +372,7 @@ func runH1(r *hk.Run, rng *hk.Rand) error {
 		}
 		for _, o := range j.out {
 			r.Add(hk.Case{}, fmt.Sprintf("h1|%x|%d|manual", st.Wire, o.K), o.K > 0 && o.K < len(st.Wire))
-			if st.Gzip {
+			if coded {
 				seen := "None"
 				if o.CallErr == "" {
 					seen = fmt.Sprintf("(Some (%s, %s))", hk.CoqBool(o.ReadErr == ""), hk.CoqN(uint64(o.DLen)))
